@@ -13,6 +13,9 @@ func (w *World) Drop(vid int) {
 
 // fillAll writes the pattern over the whole capacity of view v (through a temporary full view).
 func fillAll(w *World, v int, start int) {
+	if v < 0 || v >= len(w.views) || w.views[v] == nil {
+		return
+	}
 	b := w.views[v]
 	if b.Channels() == 0 || b.Cap() == 0 {
 		return
@@ -235,7 +238,7 @@ func genC03(w *World, r *Rng, tier string) {
 				w.st.branch("self")
 			default:
 				// source length: empty / exact fit / one frame short / far too large
-				spare := w.views[dst].Capacity() - w.views[dst].Length()
+				spare := maxInt(0, w.views[dst].Capacity()-w.views[dst].Length())
 				var sl int
 				switch r.Intn(5) {
 				case 0:
